@@ -7,6 +7,13 @@ import sys
 HERE = os.path.dirname(os.path.dirname(os.path.abspath(__file__)))
 
 CHECKS = {
+    "C17": dict(
+        category="exploration",
+        technique="property-based round-trip and metamorphic testing: generated Python programs in random surface styles, generated xonsh sources (command lines, macros, captures, mixtures at every indent depth), stdlib statements and the repository's own .xsh files through format_source; tree equality with all constants compared, comment sequence, idempotence; CLI family for rejection and --check/--diff",
+        text="For every input that xonsh parses, the formatter's output must parse to the same tree (canonical form extended over xonsh helper calls, all constants - string contents, subprocess argument strings, macro bodies - compared byte for byte), keep the tokenizer's comment texts, and be a fixed point of the formatter; untokenisable inputs must raise FormatError and through the CLI leave the file byte-identical with the documented exit code; --check/--diff never write. Python text is judged with its identifiers known (CPython as referee), xonsh text with the command words unknown. Failures are attributed edit by edit (maximal-passing-subset bisection over the formatter's edit script) to 16 recorded defects with narrow predicates.",
+        note="Trusted: xonsh's parser as the reader of both input and output (cases where the parser's tree does not account for every identifier of the text are skipped and counted - those are parser defects, C01-C03); edits that cannot matter under any reading (blank run for blank run, trailing blanks, blank lines, re-indented comment lines) are exempt and counted; subshell text is compared by its own tree.",
+        design="2/C17",
+    ),
     "C18": dict(
         category="exploration",
         technique="property-based execute-the-completion round trip (generated file names x typed prefixes x opening-quote styles, completed line executed through the real Execer with a recording alias) + Hypothesis string fuzzing of the completion-context analyser at every cursor position (atheris campaign in the thorough tier)",
